@@ -13,10 +13,11 @@ RULE = ("random removal-enabled source graphs (reciprocal pairs with disjoint/ov
         "(orderable ids); DynGraph: to_directed(). Oracle: result class; result audited with the full C01-C05 "
         "battery against the model union / intersection / both-orientations of the source model; every node kept; "
         "attributes equal; snapshot(source) unchanged by the conversion; mutating nested attribute values of the "
-        "result leaves snapshot(source) unchanged and vice versa. distinct = distinct (source model state, "
+        "result leaves snapshot(source) unchanged and vice versa, and so do later add_interaction calls (prolonging "
+        "existing intervals, adding pairs) on either graph. distinct = distinct (source model state, "
         "conversion).")
-MIN = {"quick": {"conv:has_interaction(u,v,t)": 50000, "conv:source-unchanged": 3000, "conv:isolation": 3000},
-       "thorough": {"conv:has_interaction(u,v,t)": 1000000, "conv:source-unchanged": 60000, "conv:isolation": 60000}}
+MIN = {"quick": {"conv:has_interaction(u,v,t)": 50000, "conv:source-unchanged": 3000, "conv:isolation": 3000, "conv:isolation(structure)": 3000},
+       "thorough": {"conv:has_interaction(u,v,t)": 1000000, "conv:source-unchanged": 60000, "conv:isolation": 60000, "conv:isolation(structure)": 60000}}
 REQUIRED_CELLS = {t: ("conv:to_undirected", "conv:to_undirected(reciprocal)", "conv:to_directed",
                       "src:reciprocal-overlapping", "src:reciprocal-disjoint", "src:self-loop", "src:isolated")
                   for t in ("quick", "thorough")}
@@ -129,7 +130,31 @@ def check_conv(ctx, dn, G, m, name, make, hmodel, alt=None):
         if isinstance(val, list):
             val.append("src-mutated")
     ctx.expect("conv:isolation", observe.diff(sH, observe.snapshot(H)), [], dict(detail, mutated="source"))
+    # structural isolation: later timed updates of one graph must not reach the other (shared timeline lists)
+    sG = observe.snapshot(G)
+    grow(ctx, H)
+    ctx.expect("conv:isolation(structure)", observe.diff(sG, observe.snapshot(G)), [],
+               dict(detail, mutated="result, by add_interaction"))
+    sH = observe.snapshot(H)
+    grow(ctx, G)
+    ctx.expect("conv:isolation(structure)", observe.diff(sH, observe.snapshot(H)), [],
+               dict(detail, mutated="source, by add_interaction"))
     ctx.nontrivial(m.state_key(), name)
+
+
+def grow(ctx, X):
+    """legal timed updates on X: prolong the latest interval of up to three existing pairs (in place, by
+    overlap and by adjacency) and add a brand-new pair"""
+    lst = X.out_interactions() if X.is_directed() else X.interactions()
+    ctx.rng.shuffle(lst)
+    for i, (u, v, d) in enumerate(lst[:3]):
+        a, b = d["t"][-1]
+        if i % 2 == 0:
+            X.add_interaction(u, v, b, b + 3)      # overlapping extension of the latest interval
+        else:
+            X.add_interaction(u, v, b + 1)         # adjacent extension
+    ids = X.temporal_snapshots_ids()
+    X.add_interaction("grow-a", "grow-b", (ids[-1] if ids else 0) + 1)
 
 
 def source(ctx, dn, prog, directed, fam=None):
